@@ -42,7 +42,10 @@ def run(c, specdir, tla, cfg, tracedir, rejected_scns, mutators):
             if bad is None:
                 continue
             todo.remove(m)
-            picked.append((name, evs, bad))
+            if isinstance(bad, tuple):   # the corruption chose its own intact sub-scenario
+                picked.append((name, bad[0], bad[1]))
+            else:
+                picked.append((name, evs, bad))
     d = os.path.join(c.scratch, "selftest")
     os.makedirs(d, exist_ok=True)
 
